@@ -119,7 +119,12 @@ def diff_streams(rep, prop, cfg, tier, seed, binary, workdir, kf):
                 txt = open(rf, errors='replace').read()
                 for blk in txt.split('==================')[1::2]:
                     if 'DATA RACE' in blk:
-                        race_reports.append({'stream': label, 'report': blk.strip()[:6000]})
+                        if lib.race_concerns_fingerprint_data(blk):
+                            race_reports.append({'stream': label, 'report': blk.strip()[:6000]})
+                        else:
+                            # a race between pieces of code that never touch the captured / forwarded fingerprint data is
+                            # not what C01-C07 state; it is recorded (evidence, DESIGN.md 14.3), not raised
+                            cfg.setdefault('_race_other', []).append({'stream': label, 'report': blk.strip()[:3000]})
             rep.oblige(f'race-detector:{label}', 'race-detector', len(race_reports) == n0,
                        f'{len(race_reports) - n0} data race report(s)')
     return oracle_fail, corr_fail
@@ -210,6 +215,9 @@ def run_diff_property(prop, cfg, tier, seed, replay=None):
     finally:
         shutil.rmtree(workdir, ignore_errors=True)
     replay_cmd = f'python3 check/check.py {prop} --replay {{path}}'
+    for o in cfg.get('_race_other', [])[:3]:
+        fr = [l.strip() for l in o['report'].split('\n') if l.strip().startswith(('github.com/', 'golang.org/'))][:2]
+        print(f"NOTE property={prop} data race outside the fingerprint data (not part of this property's statement): " + ' <-> '.join(fr))
     races = cfg.get('_race_reports', [])
     if races:
         def frames(blk):
